@@ -457,6 +457,8 @@ def check_geometry(e, tokens, stats):
         if any(x is None for x in exps):
             continue
         for g in have[key]:
+            if (g['fmt'] is not None) != isinstance(g['value'], str):
+                return 'geometry-derived parameter %s%r idx %d: format %r declared, value %r' % (key[0], key[1], key[3], g['fmt'], g['value'])
             if not any(geo_close(g['kind'], g['value'], x) for x in exps):
                 return 'geometry-derived parameter %s%r idx %d: real code gave %r, exact value from the matched atoms %r (%r)' % (
                     key[0], key[1], key[3], g['value'], exps, toks)
@@ -652,7 +654,7 @@ def random_ss(rng, n, alphabet='HHHEECCTS'):
 
 
 MAIN_FFS = ('martini3001', 'martini22', 'elnedyn22')
-OTHER_FFS = ('martini22p', 'elnedyn22p', 'martini30b32', 'martini3IDP', 'elnedyn21', 'martini30dev')
+OTHER_FFS = ('martini22p', 'elnedyn22p', 'martini30b32', 'martini3IDP', 'elnedyn21')      # martini30dev has no mapping from charmm
 
 
 def random_variant(rng, n, ff):
